@@ -23,7 +23,7 @@ META = {
         "ptera.probe.Probe.__init__/_emit",
     ],
     "bounds": {"quick": {"population": 10, "calls": "<= 2 (symbolic receivers)", "argument": "unbounded Int"},
-               "thorough": {"population": 10, "calls": "<= 3", "argument": "unbounded Int"}},
+               "thorough": {"population": 10, "calls": "<= 3 (two after the second probe in the twice form)", "argument": "unbounded Int"}},
     "out_of_scope": ["receivers whose __eq__ raises", "classmethods/staticmethods", "populations other than the eight receivers"],
     "assumptions": ["transform executed natively", "probe activation executed natively (concrete data)"],
 }
@@ -313,7 +313,7 @@ def cases(tier, seed):
         cs.append({"id": form, "params": {"form": form, "ncalls": min(nc, 3)}, "budget_s": 3000 if th else 200})
     cs.append({"id": "recursive_step", "params": {"form": "recursive_step", "ncalls": nc}, "budget_s": 3000 if th else 200})
     for probed in range(10):
-        cs.append({"id": f"twice:first={probed}", "params": {"form": "twice", "ncalls": nc + 1, "probed": probed},
+        cs.append({"id": f"twice:first={probed}", "params": {"form": "twice", "ncalls": 3, "probed": probed},
                    "budget_s": 3000 if th else 200})
         cs.append({"id": f"instance:probed={probed}", "params": {"form": "instance", "ncalls": nc, "probed": probed},
                    "budget_s": 3000 if th else 200})
